@@ -107,6 +107,7 @@ fn main() {
                 "receive" => probe::time_step("receive", &model),
                 "instantiate" => probe::instantiate_period(&model),
                 "derive" => probe::derive(&model),
+                "denom" => probe::denom(&model),
                 "paginate" => probe::paginate(&model),
                 "batchquery" => probe::batchquery(&model),
                 other => serde_json::json!({"reproduced": false, "error": format!("unknown probe {other}")}),
